@@ -52,16 +52,12 @@ Definition x_pexpr : nat -> pflags -> list tk -> RT :=
 Definition x_parse_top (guard : bool) (ts : list tk) : RT :=
   x_pexpr (fuel_of ts) (mkfl guard false false false) ts.
 
-Definition x_roundtrip (guard : bool) (suffix : list tk) (e : ex) : rt :=
-  match x_pp e with
-  | None => RtPanic
-  | Some ps =>
-    match x_relex ps with
-    | LexErr => RtLex
-    | LexUnsup => RtUnsup
-    | LexOk ts => RtRes (x_parse_top guard (ts ++ suffix))
-    end
-  end.
+Definition x_roundtrip : bool -> list tk -> ex -> rt :=
+  roundtrip gen_op_string gen_bin_prec gen_un_prec gen_unary_tokens gen_binary_tokens gen_OperatorReceive gen_OperatorPointer
+     gen_OperatorExtendedNot gen_OperatorNotContains gen_StringLiteral gen_IntLiteral gen_FloatLiteral
+     gen_NoDirection gen_ReceiveDirection gen_SendDirection x_kw_text
+     gen_tokenArrow gen_tokenMultiplication gen_tokenExtendedNot gen_tokenContains gen_tokenIdentifier gen_tokenLeftBracket
+     gen_result_start gen_macro_results gen_keywords gen_tmpl_keywords x_quote valid_template_path expanded tmpl.
 
 Definition x_ok : bool -> bool -> ex -> option tk -> bool :=
   ok gen_op_string gen_bin_prec gen_un_prec gen_unary_tokens gen_binary_tokens gen_OperatorReceive gen_OperatorPointer
